@@ -429,8 +429,8 @@ PROPS = {
             "reference), a numeric label shows its own number, no definition registry and no warning is touched; "
             "render_footnote_reference (a DEFINITION) with a label that is already registered emits exactly one "
             "'footnote' warning, attaches nothing and leaves every registry as it was (other footnotes undisturbed); "
-            "otherwise it attaches exactly ONE footnote node named by the label, renders the text inside it, registers the "
-            "name, and registers the node once - directly after what was registered before - in the manual registry for a "
+            "otherwise it attaches exactly ONE footnote node, renders the text inside it "
+            "and registers the node once - directly after what was registered before - in the manual registry for a "
             "numeric label, in the auto-numbered one otherwise; earlier registry entries keep their place.  NOT under "
             "contract: SortFootnotes / CollectFootnotes / UnreferencedFootnotesDetector (list.sort with a closure key, "
             "filtering list comprehensions over docutils registries, node moves - outside the engine's subset) and docutils' "
